@@ -174,6 +174,10 @@ def gen_cli_case(rnd, i):
     second = rnd.choice([None, None, "zz2nd.mac", "other/tail.mac", "aa0.mac"])
     # the tape name is text in the selected output charset: up to 16 BYTES of it
     charset = rnd.choice([None, None, None, "utf-8", "koi8-r", "cp866"]) if any(d[0].endswith("wav") for d in directives) else None
+    if charset in ("utf-8", "cp866") and rnd.random() < 0.7:
+        for d in directives:
+            if d[0].endswith("wav") and d[1] is not None:
+                d[2] = rnd.choice(["ЖУК", "игра", "Тест 1", "Ёж", "Привет", "абвгдежз", "абвгдежзи"])     # 3..9 letters = 6..18 bytes in utf-8
     incdir = rnd.choice([None, None, None, "lib", "lib/deep"]) if directives and not any((d[1] or "").startswith("../") or "/../" in (d[1] or "") for d in directives) else None
     return {"charset": charset, "incdir": incdir, "kind": "cli", "base": base, "image": img.hex(), "src": stem + suffix, "srcdir": srcdir, "directives": directives,
             "opts": opts, "where": rnd.choice(["top", "bottom", "middle"]), "quote": rnd.choice("\"'/"), "second": second}
